@@ -213,6 +213,22 @@ static int sm_width(const char *t)
 	if (!strcmp(t, "u64") || !strcmp(t, "ulong") || !strcmp(t, "size")) return 64;
 	return 0;
 }
+#define SM_RANGE(fname, type, fn) \
+static uint64_t fname(unsigned long long alo, unsigned long long ahi, unsigned long long blo, unsigned long long bhi) \
+{ \
+	unsigned long long a, b; uint64_t h = HC_FNV_INIT; \
+	for (a = alo; a < ahi; a++) \
+		for (b = blo; b < bhi; b++) { \
+			type r = 0; \
+			h = mix(h, fn(&r, (type)a, (type)b) ? 2 * (uint64_t)r + 1 : 0); \
+		} \
+	return h; \
+}
+SM_RANGE(smr_u8, uint8_t, safe_mul_uint8)
+SM_RANGE(smr_u16, uint16_t, safe_mul_uint16)
+SM_RANGE(smr_u32, uint32_t, safe_mul_uint32)
+SM_RANGE(smr_uint, unsigned int, safe_mul_uint)
+
 static bool sm_call(const char *t, unsigned long long a, unsigned long long b, unsigned long long *res)
 {
 	SM_CASE("u8", uint8_t, safe_mul_uint8)
@@ -228,9 +244,16 @@ static bool sm_call(const char *t, unsigned long long a, unsigned long long b, u
 
 #include <signal.h>
 #include <unistd.h>
+/* keep the lines already produced when a sanitizer (or abort) ends the process */
+#if defined(__SANITIZE_ADDRESS__)
+void __sanitizer_set_death_callback(void (*cb)(void));
+#endif
+static void flush_out(void) { fflush(stdout); }
+static void on_abort(int sig) { fflush(stdout); signal(SIGABRT, SIG_DFL); raise(SIGABRT); }
+
 static void on_alarm(int sig)
 {
-	static const char msg[] = "HANG operation did not return within 15 s\n";
+	static const char msg[] = "HANG operation did not return within 30 s\n";
 	fflush(stdout);
 	if (write(1, msg, sizeof msg - 1) < 0) _exit(4);
 	_exit(3);
@@ -244,11 +267,15 @@ int main(void)
 	char *line;
 	setvbuf(stdout, NULL, _IOFBF, 1 << 16);
 	signal(SIGALRM, on_alarm);
+	signal(SIGABRT, on_abort);
+#if defined(__SANITIZE_ADDRESS__)
+	__sanitizer_set_death_callback(flush_out);
+#endif
 	world_reset();
 	while ((line = hc_line()) != NULL) {
 		char *w[10];
 		int n = hc_words(line, w, 10);
-		alarm(15);
+		alarm(30);
 		if (n == 1 && !strcmp(w[0], "#case")) { world_reset(); puts("#case"); goto next; }
 		if (n == 1 && !strcmp(w[0], "sizes")) {
 			printf("sizes ## pool=%zu seg=%zu tree=%zu item=%d slab=%zu frag=%zu mp=%zu th=%zu\n",
@@ -465,11 +492,12 @@ int main(void)
 		if (n == 6 && !strcmp(w[0], "smr")) {
 			int wd = sm_width(w[1]);
 			U(2, alo); U(3, ahi); U(4, blo); U(5, bhi);
-			unsigned long long a, b, r; uint64_t h = HC_FNV_INIT;
+			uint64_t h;
 			if (!wd || wd > 32 || ahi > (1ULL << wd) || bhi > (1ULL << wd) || alo > ahi || blo > bhi) BAD;
-			for (a = alo; a < ahi; a++)
-				for (b = blo; b < bhi; b++)
-					h = mix(h, sm_call(w[1], a, b, &r) ? 2 * r + 1 : 0);
+			if (!strcmp(w[1], "u8")) h = smr_u8(alo, ahi, blo, bhi);
+			else if (!strcmp(w[1], "u16")) h = smr_u16(alo, ahi, blo, bhi);
+			else if (!strcmp(w[1], "u32")) h = smr_u32(alo, ahi, blo, bhi);
+			else h = smr_uint(alo, ahi, blo, bhi);
 			printf("%llu\n", (unsigned long long)h);
 			goto next;
 		}
